@@ -552,6 +552,7 @@ outerNew:
 			if reposition {
 				if cursor.Hyperlink != "" {
 					_, _ = vx.tw.WriteString(tparm(osc8, "", ""))
+					cursor.Hyperlink = ""
 				}
 				_, _ = vx.tw.WriteString(tparm(cup, row+1, col+1))
 				reposition = false
